@@ -26,10 +26,16 @@ MaxI(a, b) == IF a > b THEN a ELSE b
 \* validated like one (in particular pad_height is not limited)
 Anim(c) == c.multi /\ c.animate
 
+\* The padded size is judged whatever kind of padding produced it: "exact" margins, or an
+\* AlignedPadding with ONE terminal-relative dimension (relw: width 0 = the terminal's width,
+\* absolute height ph; relh: absolute width pw, height 0 = the terminal's height) - a relative
+\* dimension fits by construction, the absolute one next to it still has to be validated
+EffPW(c) == IF c.pad = "relw" THEN c.cols ELSE c.pw
+EffPH(c) == IF c.pad = "relh" THEN c.rows ELSE c.ph
 NewVerdict(c) ==
-  \* c: [pw, ph, cols, rows, multi, animate, check, scroll]
-  IF (c.check \/ Anim(c)) /\ c.pw > c.cols THEN "RenderSizeOutofRangeError"
-  ELSE IF (c.check \/ Anim(c)) /\ ~(c.scroll /\ ~Anim(c)) /\ c.ph > c.rows THEN "RenderSizeOutofRangeError"
+  \* c: [pw, ph, cols, rows, multi, animate, check, scroll, pad]
+  IF (c.check \/ Anim(c)) /\ EffPW(c) > c.cols THEN "RenderSizeOutofRangeError"
+  ELSE IF (c.check \/ Anim(c)) /\ ~(c.scroll /\ ~Anim(c)) /\ EffPH(c) > c.rows THEN "RenderSizeOutofRangeError"
   ELSE "ok"
 
 OldVerdict(c) ==
